@@ -19,7 +19,7 @@ inductive Trans (s : CSt) : CEv → Nat → Con → Con → Prop where
   | started (a : Nat) (c : Con) (h : c.pc = .start) :
       Trans s (.base (.addRefCS a)) a c { c with pc := if c.op = .access then .look else .awaiting }
   | snapErr (a : Nat) (c : Con) (h : canLook c = true) (he : c.ce ≠ 0) :
-      Trans s (.snap a) a c { snapped c with pc := .exitWait 0 c.ce }
+      Trans s (.snap a) a c { snapped c with pc := .exitWait 0 c.ce, mainOwns := !flagOf s.b a }
   | snapCall (a : Nat) (c : Con) (h : canLook c = true) (he : c.ce = 0) (hr : c.cres = true) :
       Trans s (.snap a) a c { snapped c with pc := .calling c.cv (c.cnonce + 1) c.bc.getWaitCh.2 }
   | snapWait (a : Nat) (c : Con) (h : canLook c = true) (he : c.ce = 0) (hr : c.cres = false) :
@@ -30,26 +30,26 @@ inductive Trans (s : CSt) : CEv → Nat → Con → Con → Prop where
   | cbout (a m r v n ch : Nat) (c : Con) (h : c.pc = .incb m v n ch) :
       Trans s (.cbout a m r) a c { c with pc := .afterCb r n ch, wcancel := false }
   | checkCancel (a r n ch : Nat) (c : Con) (h : c.pc = .afterCb r n ch) (hc : c.cancelled = true) :
-      Trans s (.check a) a c { c with pc := .exitWait 0 9 }
+      Trans s (.check a) a c { c with pc := .exitWait 0 9, mainOwns := !flagOf s.b a }
   | checkGo (a r n ch : Nat) (c : Con) (h : c.pc = .afterCb r n ch) (hc : c.cancelled = false) :
       Trans s (.check a) a c { c with pc := .recheck r n ch }
   | recheckSame (a r n ch : Nat) (c : Con) (h : c.pc = .recheck r n ch) (hn : c.cnonce = n) :
-      Trans s (.recheck a) a c { c with pc := .exitWait 0 r }
+      Trans s (.recheck a) a c { c with pc := .exitWait 0 r, mainOwns := !flagOf s.b a }
   | recheckDiff (a r n ch : Nat) (c : Con) (h : c.pc = .recheck r n ch) (hn : c.cnonce ≠ n) :
       Trans s (.recheck a) a c { c with pc := .waiting n ch }
   | waitCancel (a n ch : Nat) (c : Con) (h : c.pc = .waiting n ch) (hc : c.cancelled = true) :
-      Trans s (.waitCancel a) a c { c with pc := .exitWait 0 9 }
+      Trans s (.waitCancel a) a c { c with pc := .exitWait 0 9, mainOwns := !flagOf s.b a }
   | awaitErr (a v e : Nat) (c : Con) (h : c.pc = .awaiting) (hp : c.prom = some (v, e)) (he : e ≠ 0) :
-      Trans s (.await a) a c { c with pc := .exitWait v e }
+      Trans s (.await a) a c { c with pc := .exitWait v e, mainOwns := !flagOf s.b a }
   | awaitOk (a v : Nat) (c : Con) (h : c.pc = .awaiting) (hp : c.prom = some (v, 0)) :
       Trans s (.await a) a c { c with pc := .exitKeep v 0 }
   | awaitCancel (a : Nat) (c : Con) (h : c.pc = .awaiting) (hc : c.cancelled = true) :
-      Trans s (.awaitCancel a) a c { c with pc := .exitWait 0 9 }
+      Trans s (.awaitCancel a) a c { c with pc := .exitWait 0 9, mainOwns := !flagOf s.b a }
   | retWait (a v e : Nat) (c : Con) (h : c.pc = .exitWait v e) : Trans s (.ret a v e) a c { c with pc := .returned }
   | retKeep (a v e : Nat) (c : Con) (h : c.pc = .exitKeep v e) : Trans s (.ret a v e) a c { c with pc := .returned }
   | cancel (a : Nat) (c : Con) : Trans s (.envCancelCall a) a c { c with cancelled := true }
   | goRel (a : Nat) (c : Con) (h : c.go = .rel) :
-      Trans s (.goRel a) a c { c with go := if c.op = .rwr true then .relWait else .done }
+      Trans s (.goRel a) a c { c with go := if c.op = .rwr true then .relWait else .done, goOwns := !flagOf s.b a }
   | goCb (a : Nat) (c : Con) (h : c.go = .relWait) : Trans s (.goCb a) a c { c with go := .done }
 
 /-- what a step does to the consumer table -/
@@ -78,7 +78,7 @@ theorem frame_set (s : CSt) (b' : St) (e : CEv) (a : Nat) (c c1 : Con) (hc : get
     · exact ⟨y, hy⟩
 
 theorem frame_exitRel (s s' : CSt) (e : CEv) (a : Nat) (c c1 : Con) (v er : Nat) (hc : getCon s a = some c)
-    (ht : Trans s e a c { c1 with pc := .exitWait v er }) (h : exitRel s a c1 v er = some s') : Frame s s' e := by
+    (ht : Trans s e a c { c1 with pc := .exitWait v er, mainOwns := !flagOf s.b a }) (h : exitRel s a c1 v er = some s') : Frame s s' e := by
   unfold exitRel at h
   split at h <;> simp at h
   subst h
